@@ -462,6 +462,52 @@ func runC02(c *Ctx) {
 		}
 	}
 	if len(rw.Call.Args) < 2 {
+		// a rebuild that counts the subtree itself: the count is the real number of nodes as long as it is taken
+		// before the subtree is handed to anything else (flattening destroys the shape size() walks)
+		if rf := origin(staticCallee(&rw.Call)); rf != nil && rf.Blocks != nil && len(rf.Params) >= 1 && len(probs) == 0 {
+			var cnt *ssa.Call
+			var others []*ssa.Call
+			allInstrs(rf, func(in ssa.Instruction) {
+				call, ok := in.(*ssa.Call)
+				if !ok {
+					return
+				}
+				takes := false
+				for _, a := range call.Call.Args {
+					if a == ssa.Value(rf.Params[0]) {
+						takes = true
+					}
+				}
+				if !takes {
+					return
+				}
+				if origin(staticCallee(&call.Call)) == nodeSize {
+					cnt = call
+				} else {
+					others = append(others, call)
+				}
+			})
+			used := false
+			if cnt != nil {
+				for _, r := range referrersOf(cnt) {
+					if call, ok := r.(*ssa.Call); ok && staticCallee(&call.Call) != nil {
+						used = true
+					}
+				}
+			}
+			switch {
+			case cnt == nil || !used:
+			default:
+				late := ""
+				for _, o := range others {
+					if !dominatesInstr(cnt, o) {
+						late = origin(staticCallee(&o.Call)).Name()
+					}
+				}
+				c.judge(late == "", "R-GOAT-REBUILD", "stree.(*Tree).insert:rebuild", rw.Pos(), "guarded by height > limit(subtree size); the rebuild counts the subtree itself, before anything else touches it", "the rebuild counts the subtree after handing it to "+late+": once flattened, size() no longer sees the nodes it is asked to rebalance, and the rebuilt tree loses or misplaces the rest")
+				return
+			}
+		}
 		c.undecided("R-GOAT-REBUILD", "stree.(*Tree).insert:rebuild", rw.Pos(), "the rebuild is not handed a node count: how many nodes it rebalances cannot be related to the size the scapegoat criterion was evaluated for")
 		return
 	}
